@@ -153,7 +153,8 @@ CLAIMED["C10"] = dict(
          "grid is given; gridshift inverse: count <= n and an uncounted tuple is NaN whatever the grids answer and "
          "whether or not the iteration converges; deformation forward/inverse: first-hit grid, per-tuple epoch, "
          "honest count, NaN for uncovered tuples, null grid passes unchanged; the placeholder inverse of a one-way "
-         "operator returns 0 and touches nothing; thorough tier: tmerc inverse strip guard.",
+         "operator returns 0 and touches nothing; cart inverse transforms AND counts points on the rotation axis; "
+         "thorough tier: tmerc inverse strip guard.",
     note=TRUST + "M-BTREE, S-ACC(boolean), S-GRID (a Grid impl answering arbitrarily but monotonically in the "
          "margin; S-GRID-SEQ answers arbitrarily per lookup, for the inverse iteration), S-UF-SMALL(hypot; atan2/hypot/"
          "sqrt/powi inside geographic). Stack underflow (C12) and the pipeline "
